@@ -190,8 +190,8 @@ def generate(rng, tier):
     quick = tier == "quick"
     light, heavy = [], []
     # 1. exhaustive token schedules (producer requests atomic) on small workloads, a failing call at every position
-    for work, fmax, cpl in ([(W_TINY2, 7, range(0, 8)), (W_TWO3, 5, (0, 2, 4)), (W_ONE3, 5, (0, 1, 3)),
-                             (W_SHARE, 4, (0, 3))] if quick else
+    for work, fmax, cpl in ([(W_TINY2, 6, range(0, 7)), (W_TWO3, 4, (0, 2, 4)), (W_ONE3, 4, (0, 1, 3)),
+                             (W_SHARE, 3, (0, 3))] if quick else
                             [(W_TINY2, 9, range(0, 10)), (W_TWO3, 7, (0, 2, 4, 6)), (W_ONE3, 7, (0, 1, 3, 5)),
                              (W_SHARE, 6, (0, 1, 3, 5)), (W_TWO4, 3, (0, 3))]):
         variants = [work] + [with_fail_at(work, j, 1 + j % 4) for j in range(nops(work))]
@@ -202,7 +202,7 @@ def generate(rng, tier):
                     continue
                 light.append(mk(wv, dict(kind="tokens", tokens=toks), "exhaustive-tokens"))
     # 2. random token schedules on random larger workloads
-    for _ in range(400 if quick else 4000):
+    for _ in range(300 if quick else 4000):
         w = rand_work(rng, rng.randrange(1, 4), 6, rng.randrange(1, 4))
         light.append(mk(w, dict(kind="tokens", tokens=rand_tokens(rng, w)), "random-tokens"))
     # 2b. probe stream for known finding F12 (argument captured by reference): token schedules only
@@ -211,10 +211,12 @@ def generate(rng, tier):
             if k % (2 if quick else 1) == 0:
                 light.append(mk(w, dict(kind="tokens", tokens=toks), "probe-F12"))
     # 3. bounded-preemption exhaustive exploration by the driver
-    for w in [W_TWO3, W_SHARE, W_THREE, W_RESET, with_fail_at(W_TWO4, 1), with_fail_at(W_ONE3, 0), with_fail_at(W_THREE, 3)]:
-        heavy.append(mk(w, dict(kind="explore", gran="atomic", budget=1, max_runs=1200 if quick else 10000), "explore-atomic"))
-    for w in [W_TINY2, W_SHARE, with_fail_at(W_ONE3, 1)] + ([] if quick else [W_TWO3, W_TWO4, W_THREE, W_RESET]):
-        heavy.append(mk(w, dict(kind="explore", gran="line", budget=1, max_runs=2000 if quick else 10000), "explore-line"))
+    for w in [W_TWO3, W_SHARE, W_RESET, with_fail_at(W_TWO4, 1), with_fail_at(W_ONE3, 0), with_fail_at(W_THREE, 3)] + \
+            ([] if quick else [W_THREE]):
+        heavy.append(mk(w, dict(kind="explore", gran="atomic", budget=1, max_runs=700 if quick else 10000), "explore-atomic"))
+    for w, cap in [(W_TINY2, 1500), (W_SHARE, 700), (with_fail_at(W_ONE3, 1), 700)] + \
+            ([] if quick else [(W_TWO3, 0), (W_TWO4, 0), (W_THREE, 0), (W_RESET, 0)]):
+        heavy.append(mk(w, dict(kind="explore", gran="line", budget=1, max_runs=cap if quick else 10000), "explore-line"))
     if not quick:
         for w in [W_TINY2, W_SHARE, W_TWO3]:
             heavy.append(mk(w, dict(kind="explore", gran="atomic", budget=2, max_runs=12000), "explore-atomic"))
@@ -225,7 +227,7 @@ def generate(rng, tier):
     for j in range(16 if quick else 160):
         w = rand_work(rng, rng.randrange(1, 4), 5, rng.randrange(1, 4))
         gran = "line" if j % 2 else "atomic"
-        heavy.append(mk(w, dict(kind="random", gran=gran, seed=rng.randrange(10**6), runs=60 if quick else 150,
+        heavy.append(mk(w, dict(kind="random", gran=gran, seed=rng.randrange(10**6), runs=40 if quick else 150,
                                 p=rng.choice([0.05, 0.15, 0.3])), "random-" + gran))
     # 5. real threads (thorough): direct predicate only, must reproduce in every repetition
     if not quick:
